@@ -1238,6 +1238,16 @@ class Num:
             if a.is_const() or b.is_const() or (a.degree() + b.degree() <= 2 and len(a.t) * len(b.t) <= 6):
                 return self.norm(a * b, t, st, "prod")
             return Poly.atom(self.fresh(st, "prod", t))
+        if op == "|":
+            # disjoint bit ranges: (multiple of 2^k) | (value in [0, 2^k)) is their sum
+            for hi_, lo_ in ((a, b), (b, a)):
+                if hi_.is_const() and hi_.cval() == 0:
+                    return lo_
+                for k_ in (1, 2, 3, 4, 5, 6, 7, 8, 10, 12, 16, 24, 32):
+                    m_ = 2 ** k_
+                    if all(cf % m_ == 0 for cf in hi_.t.values()) and entails(st, -lo_) and entails(st, lo_ - (m_ - 1)) and entails(st, -hi_):
+                        return self.norm(hi_ + lo_, t, st, "or")
+            return Poly.atom(self.fresh(st, "or", t)) if ("w" in t or t.get("ptr")) else None
         if op in ("/", "%", ">>", "<<", "&"):
             if op == ">>" and b.is_const() and 0 <= b.cval() < 64:
                 op, b = "/", Poly.const(2 ** b.cval())
